@@ -251,6 +251,17 @@ class CallMixin:
                 finally:
                     self.frames.pop()
 
+    def field_snapshot(self):
+        """Fields of objects known only by reference live in st.ghost (one array per class attribute, plus the
+        epoch that names the uninterpreted initial function): part of the state old() must see."""
+        return {k: v for k, v in self.st.ghost.items()
+                if (isinstance(k, tuple) and k and k[0] == 'field') or k == 'field_epoch'}
+
+    def field_restore(self, snap):
+        for k in [k for k in self.st.ghost if (isinstance(k, tuple) and k and k[0] == 'field') or k == 'field_epoch']:
+            del self.st.ghost[k]
+        self.st.ghost.update(snap)
+
     def pc_status(self):
         """'sat' / 'unsat' / 'unknown' for the current path condition (short budget)."""
         sv = z3.Solver()
@@ -275,7 +286,7 @@ class CallMixin:
         calls = [c for c in ast.walk(f.func.node) if isinstance(c, ast.Call) and callee_name(c) in names]
         calls.sort(key=lambda c: (c.lineno, c.col_offset))
         n = next((i + 1 for i, c in enumerate(calls) if c is node), 0)
-        return f'{f.func.key}::pre@{fi.qualname}#call{n}'
+        return f'{f.func.key}{self.label_suffix()}::pre@{fi.qualname}#call{n}'
 
     def format_safety(self, fmt, nargs, kwnames, node):
         """str.format / _format: the replacement fields of the template must be satisfied by the arguments.
@@ -423,7 +434,7 @@ class CallMixin:
                     self.check_spec(req[1], f'{site}::{fi.qualname}#{req[0]}', 'pre@call')
                 else:
                     self.check_spec(req, f'{site}::{fi.qualname}#req{i+1}', 'pre@call')
-            old = (dict(env), dict(self.st.heap))
+            old = (dict(env), dict(self.st.heap), self.field_snapshot())
             outcomes = ([] if c.never_returns else ['normal']) + list(c.raises.keys())
             conds = []
             if c.never_returns and len(outcomes) == 1:
@@ -615,8 +626,12 @@ class CallMixin:
         old = getattr(fr, 'old', None)
         if old is None:
             self.limit('old() outside a contract')
-        env0, heap0 = old
+        env0, heap0 = old[0], old[1]
+        fields0 = old[2] if len(old) > 2 else None
         cur_env, cur_heap = fr.env, self.st.heap
+        cur_fields = self.field_snapshot()
+        if fields0 is not None:
+            self.field_restore(fields0)
         tmp_heap = dict(heap0)
         fr.env = dict(env0)
         # keep spec-only names visible
@@ -631,6 +646,8 @@ class CallMixin:
         finally:
             fr.env = cur_env
             self.st.heap = cur_heap
+            if fields0 is not None:
+                self.field_restore(cur_fields)
         return frozen
 
     def freeze(self, v, src_heap, dst_heap, seen=None):
@@ -884,7 +901,7 @@ class CallMixin:
                     self.assume_spec(fact)
                 for req in contract.requires:
                     self.assume_spec(req)
-                fr.old = (dict(env), dict(st.heap))
+                fr.old = (dict(env), dict(st.heap), self.field_snapshot())
                 pr.entry = fr.old
                 pr.excl = {}
                 for oname, expr in (getattr(self, 'known_excl', None) or {}).items():
